@@ -228,6 +228,20 @@ func (r *run) rogue(e Ev) {
 				return
 			}
 			p.DUID = fd
+			// the id can arrive with any shape of request: as it was, pull-only, marked read-only
+			switch g.Intn(4) {
+			case 1:
+				p.Operations = nil
+				p.Option = uint32(model.PushPullBitNormal)
+			case 2:
+				p.Operations = nil
+				p.Option = uint32(model.PushPullBitReadOnly)
+			case 3:
+				p.Option |= uint32(model.PushPullBitReadOnly)
+			}
+			if len(p.Operations) == 0 && p.CheckPoint != nil {
+				p.CheckPoint = &model.CheckPoint{Sseq: 0, Cseq: 0}
+			}
 		case "unregistered-cuid":
 			base.Cuid = g.UID()
 		case "admin-cuid":
